@@ -25,13 +25,14 @@ Section CSpec.
     rewrite spec_state_snoc, q_o_step, IH, sp_run_snoc. reflexivity.
   Qed.
 
-  (* PropertiesChanged never looks like NameOwnerChanged: the forgery class of C32 does not exist here *)
-  Lemma forgeable_props : forall h, forgeable cf h = false.
+  (* PropertiesChanged never looks like NameOwnerChanged: the driver-claim condition of C32's bus histories
+     holds for every history *)
+  Lemma no_driver_claim : forall h, existsb (driver_claim_off_path cf) h = false.
   Proof.
-    intro h. unfold forgeable. induction h as [|m h IH]; [reflexivity|]. cbn [existsb]. rewrite IH, orb_false_r.
-    destruct m as [s|p]; [|reflexivity]. unfold wanted, is_noc, cf, scfg. cbn [c_pi c_pm].
+    intro h. induction h as [|m h IH]; [reflexivity|]. cbn [existsb]. rewrite IH, orb_false_r.
+    destruct m as [s|p]; [|reflexivity]. unfold driver_claim_off_path, wanted, is_noc, cf, scfg. cbn [c_pi c_pm].
     destruct (s_iface s =? I_PROPS) eqn:E; [|rewrite andb_false_r; reflexivity].
-    apply N.eqb_eq in E. rewrite E. cbn. rewrite andb_false_r. reflexivity.
+    apply N.eqb_eq in E. rewrite E. cbn. rewrite !andb_false_r. reflexivity.
   Qed.
 
   Lemma wanted_props : forall s, wanted cf s = props_signal s.
@@ -145,7 +146,7 @@ Section CRun.
   Hypothesis Hown : c_dest cf = DWell -> owners_ok_from 0 h = true.
   Hypothesis Hcon : c_dest cf = DWell -> consistent_from 0 None h = true.
 
-  Let Hfg : forgeable cf h = false := forgeable_props pc h.
+  Let Hdc : existsb (driver_claim_off_path cf) h = false := no_driver_claim pc h.
 
   Definition G : N := creation (p_dest pc) + 1.
 
@@ -203,7 +204,7 @@ Section CRun.
     q_val (spec_state pc (pre ++ [WSig s])) = (if q_ok Q && hit then vapply pc (q_val Q) s else q_val Q).
   Proof.
     intros st n s pre rest reps nc B Hok Hq Hreps He st' Q hit.
-    destruct (in_hist cf h Hst Hfg _ _ _ _ _ s rest B eq_refl) as [Hsnd Hnoc].
+    destruct (in_hist cf h Hst Hdc _ _ _ _ _ s rest B eq_refl) as [Hsnd Hnoc].
     assert (Hq' : match c_dest cf with
                   | DWell => ss_qn st <> None /\ LOOKUP <= sp_rep (sp_run cf pre)
                   | DUnique _ => ss_qn st = None
@@ -254,7 +255,7 @@ Section CRun.
       inversion Et; subst w'. clear Et.
       assert (x' = set_cw x {| w_todo := rest; w_seq := w_seq (cw x) + 1; w_reps := w_reps (cw x); w_log := w_log (cw x);
                                w_ph := deliver_sig cf (w_seq (cw x) + 1) s (w_ph (cw x)); w_out := w_out (cw x);
-                               w_start := w_start (cw x); w_lost := w_lost (cw x) |})
+                               w_start := w_start (cw x) |})
         by (destruct (c_stage x); inversion H; reflexivity).
       subst x'. clear H. exists (pre ++ [WSig s]).
       pose proof (Base_sig cf h Hown Hcon _ _ _ _ _ _ B) as B'.
@@ -263,7 +264,7 @@ Section CRun.
       split; [exact B'|]. split; [exact Hu|].
       destruct (c_stage x) as [|c j fut| |] eqn:Estage.
       + destruct S as (P & Hn & Hr). rewrite <- Etodo in B.
-        destruct (tick_sig_inv cf h Hst Hfg Hown Hcon (cw x) pre s rest Etodo B P) as [_ P'].
+        destruct (tick_sig_inv cf h Hst Hdc Hown Hcon (cw x) pre s rest Etodo B P) as [_ P'].
         split; [exact P'|]. split; assumption.
       + destruct S as (st & Eph & Hc & Hnc & Hok & Hq & He & Hnv & Hrd & Hcase).
         assert (Hreps : creation (p_dest pc) <= w_reps (cw x)) by (destruct Hcase as [(E & _)|(E & _)]; unfold G in *; lia).
@@ -414,16 +415,16 @@ Section CRun.
   Qed.
 
   (* ---- the caching task makes a step *)
-  Lemma task_inv : forall x, CInv x -> w_lost (cw (task_step pc x)) = false -> CInv (task_step pc x).
+  Lemma task_inv : forall x, CInv x -> CInv (task_step pc x).
   Proof.
-    intros x (pre & B & Hu & S) Hlost. unfold task_step in *. unfold SInv in S.
+    intros x (pre & B & Hu & S). unfold task_step in *. unfold SInv in S.
     destruct (c_stage x) as [|c j fut| |] eqn:Estage.
     - (* the stream is being created *)
-      destruct S as (P & Hnv & Hrd). fold cf in Hlost |- *.
+      destruct S as (P & Hnv & Hrd). fold cf.
       destruct (w_ph (cw x)) as [|c qr|c j qn fut|c src qn qr|st| |] eqn:Eph.
       all: try (
         assert (HC : CInv1 cf h (client_step cf (cw x)) pre)
-          by (apply (client_pinv cf h Hown Hcon); [split; assumption|exact Hlost]);
+          by (apply (client_pinv cf h Hown Hcon); split; assumption);
         destruct HC as [B' P']; exists pre; unfold SInv; cbn [cw set_cw c_stage c_cache c_ready]; rewrite Estage;
         split; [exact B'|]; split; [exact Hu|]; split; [exact P'|]; split; assumption).
       + (* the stream exists: GetAll *)
@@ -578,9 +579,9 @@ Section CRun.
   Lemma add_stream_val : forall c p, k_val (add_stream c p) = k_val c.
   Proof. intros c p. unfold add_stream. destruct (k_has c p); reflexivity. Qed.
 
-  Lemma cstep_inv : forall x a, CInv x -> w_lost (cw (cstep pc x a)) = false -> CInv (cstep pc x a).
+  Lemma cstep_inv : forall x a, CInv x -> CInv (cstep pc x a).
   Proof.
-    intros x a Hi Hl. destruct a as [| | |p]; cbn [cstep] in *.
+    intros x a Hi. destruct a as [| | |p]; cbn [cstep] in *.
     - destruct (ctick pc x) as [x'|] eqn:E; [eapply ctick_inv; eassumption|exact Hi].
     - apply task_inv; assumption.
     - unfold with_cache. apply cinv_same_vals; [exact Hi|].
@@ -596,60 +597,28 @@ Section CRun.
   Qed.
 End CRun.
 
-(* the flag of C32's release class never goes back *)
-Lemma clost_mono : forall pc x a, w_lost (cw x) = true -> w_lost (cw (cstep pc x a)) = true.
-Proof.
-  intros pc x a H. destruct a as [| | |p]; cbn [cstep].
-  - unfold ctick. pose proof (lost_mono (scfg pc) (cw x) ATick H) as Ht. cbn [step] in Ht.
-    destruct (tick (scfg pc) (cw x)) as [w'|]; [|exact H].
-    destruct (w_todo (cw x)) as [|[s|q] r]; try exact Ht. destruct (c_stage x) as [|c j [qr|]| |]; exact Ht.
-  - unfold task_step. pose proof (lost_mono (scfg pc) (cw x) AClient H) as Hc. cbn [step] in Hc.
-    destruct (c_stage x) as [|c j fut| |]; try exact H.
-    + destruct (w_ph (cw x)); try exact Hc; exact H.
-    + destruct (w_ph (cw x)); try exact H.
-      destruct (init_poll c j st fut) as [[[r j'] st'] fut'].
-      destruct r as [[m|q] t| | |]; try exact H. destruct q; exact H.
-    + destruct (w_ph (cw x)); try exact H. destruct (ssp st None) as [[m t| | |] st']; exact H.
-  - exact H.
-  - unfold poll_stream. destruct (k_has (c_cache x) p && k_note (c_cache x) p); exact H.
-Qed.
-
-Lemma crun_lost : forall pc sched x, w_lost (cw x) = true -> w_lost (cw (fold_left (cstep pc) sched x)) = true.
-Proof.
-  induction sched as [|a sched IH]; intros x H; [exact H|]. cbn [fold_left]. apply IH. apply clost_mono. exact H.
-Qed.
-
 Lemma crun_inv : forall pc h,
   stamped h = true ->
   (c_dest (scfg pc) = DWell -> owners_ok_from 0 h = true) ->
   (c_dest (scfg pc) = DWell -> consistent_from 0 None h = true) ->
-  forall sched x, CInv pc h x -> w_lost (cw (fold_left (cstep pc) sched x)) = false ->
-  CInv pc h (fold_left (cstep pc) sched x).
+  forall sched x, CInv pc h x -> CInv pc h (fold_left (cstep pc) sched x).
 Proof.
-  intros pc h Hst Hown Hcon. induction sched as [|a sched IH]; intros x Hi Hl; [exact Hi|].
-  cbn [fold_left] in *. apply IH; [|exact Hl]. apply cstep_inv; try assumption.
-  destruct (w_lost (cw (cstep pc x a))) eqn:E; [|reflexivity].
-  rewrite (crun_lost pc sched _ E) in Hl. discriminate.
+  intros pc h Hst Hown Hcon. induction sched as [|a sched IH]; intros x Hi; [exact Hi|].
+  cbn [fold_left] in *. apply IH. apply cstep_inv; assumption.
 Qed.
 
 (* ---------------------------------------------------------------- the theorems *)
-Theorem cache_partial : forall pc h sched,
-  bus_history (scfg pc) h = true -> ~ Known_C31 pc h sched ->
+Theorem cache_full : forall pc h sched,
+  bus_history (scfg pc) h = true ->
   let x := crun pc h sched in
   (c_ready x <> Some true -> forall p, cached x p = None) /\
   (caught_up x -> forall p, cached x p = spec_cache pc (received x h) p) /\
   (c_ready x = Some true -> spec_ready pc (received x h) = Some true).
 Proof.
-  intros pc h sched Hb Hk x.
-  assert (Hl : w_lost (cw x) = false).
-  { destruct (w_lost (cw x)) eqn:E; [exfalso; apply Hk; exact E|reflexivity]. }
-  unfold bus_history in Hb. apply andb_true_iff in Hb. destruct Hb as [Hst Hb].
-  assert (Hown : c_dest (scfg pc) = DWell -> owners_ok_from 0 h = true).
-  { intro Hd. rewrite Hd in Hb. apply andb_true_iff in Hb. tauto. }
-  assert (Hcon : c_dest (scfg pc) = DWell -> consistent_from 0 None h = true).
-  { intro Hd. rewrite Hd in Hb. apply andb_true_iff in Hb. tauto. }
+  intros pc h sched Hb x.
+  destruct (bus_history_parts _ _ Hb) as (Hst & _ & Hown & Hcon).
   assert (Hi : CInv pc h x).
-  { apply (crun_inv pc h Hst Hown Hcon); [apply cinit_inv; assumption|exact Hl]. }
+  { apply (crun_inv pc h Hst Hown Hcon). apply cinit_inv; assumption. }
   destruct Hi as (pre & B & Hu & S).
   assert (Hpre : received x h = pre).
   { unfold received. rewrite (b_split _ _ _ _ _ _ _ B), <- (b_len _ _ _ _ _ _ _ B), Nnat.Nat2N.id.
